@@ -649,4 +649,171 @@ theorem writeOp_ok_spec {s : State} {c : Nat} {t : Bool} {p : Option Nat} (ok : 
         | false => simp at ok
     · simp [hg] at ok
 
+/-- what a successful write leaves in the row and in the ghost log -/
+theorem writeOp_ok_content {s : State} {c : Nat} {t : Bool} {p : Option Nat} (ok : (writeOp s c t p).2 = .ok) :
+    ∃ o, getObj s c = some o ∧ s.db.version = o.version ∧ (writeOp s c t p).1.db.content = o.cur ∧
+      (writeOp s c t p).1.log = s.log ++ o.pend := by
+  unfold writeOp at ok ⊢
+  cases ho : getObj s c with
+  | none => simp [ho] at ok
+  | some o =>
+    simp only [ho] at ok ⊢
+    by_cases hg : (s.db.version == o.version && phaseOk s p) = true
+    · simp only [hg, if_true] at ok ⊢
+      cases hu : upsertAll s.db.tasks o.tasks with
+      | mk rows rest =>
+        obtain ⟨mem, okk⟩ := rest
+        simp only [hu] at ok ⊢
+        cases okk with
+        | true =>
+          simp only [if_true]
+          simp only [Bool.and_eq_true, beq_iff_eq] at hg
+          exact ⟨o, rfl, hg.1, rfl, rfl⟩
+        | false => simp at ok
+    · simp [hg] at ok
+
+/-! ### split reads: the row version only grows, and it grows whenever the content changes -/
+
+theorem modifyOp_db (s : State) (c : Nat) (m : Mod) : (modifyOp s c m).db = s.db := by
+  unfold modifyOp
+  split
+  · rfl
+  · dsimp only; split <;> rfl
+
+theorem reapply_db (c : Nat) : ∀ (ms : List Mod) (s : State), (reapply s c ms).db = s.db
+  | [], _ => rfl
+  | m :: ms, s => by
+    show (reapply (modifyOp s c m) c ms).db = s.db
+    rw [reapply_db c ms, modifyOp_db]
+
+/-- a write leaves the row alone or bumps its version -/
+theorem writeOp_db (s : State) (c : Nat) (t : Bool) (p : Option Nat) :
+    (writeOp s c t p).1.db = s.db ∨ (writeOp s c t p).1.db.version = s.db.version + 1 := by
+  unfold writeOp
+  split
+  · left; rfl
+  · split
+    · split
+      split
+      · right; rfl
+      · left; rfl
+    · left; rfl
+
+/-- the version column is monotone, and an unchanged version means unchanged content -/
+theorem step_db (s : State) (op : Op) :
+    s.db.version ≤ (step s op).1.db.version ∧
+    ((step s op).1.db.version = s.db.version → (step s op).1.db.content = s.db.content) := by
+  have key : ∀ s' : State, (s'.db = s.db ∨ s'.db.version = s.db.version + 1) →
+      s.db.version ≤ s'.db.version ∧ (s'.db.version = s.db.version → s'.db.content = s.db.content) := by
+    rintro s' (h | h)
+    · rw [h]; exact ⟨Nat.le_refl _, fun _ => rfl⟩
+    · exact ⟨by omega, fun e => by omega⟩
+  cases op with
+  | read c => exact key _ (Or.inl rfl)
+  | modify c m => exact key _ (Or.inl (modifyOp_db s c m))
+  | write c t p => exact key _ (writeOp_db s c t p)
+  | retry c t p =>
+    simp only [step, retryOp]
+    split
+    · exact key _ (Or.inl rfl)
+    · rename_i o _
+      have h := writeOp_db (reapply (readOp s c) c o.pend) c t p
+      have e : (reapply (readOp s c) c o.pend).db = s.db := by rw [reapply_db]; rfl
+      rw [e] at h
+      exact key _ h
+  | bump t => exact ⟨Nat.le_refl _, fun _ => rfl⟩
+
+/-- an object under construction is never ahead of the row, and while it is level with the row it holds the row's content -/
+def PartOk (s : State) (p : Partial) : Prop :=
+  p.version ≤ s.db.version ∧ (p.version = s.db.version → p.content = s.db.content)
+
+structure SInv (s : SState) : Prop where
+  inv : Inv s.base
+  parts : ∀ q ∈ s.parts, PartOk s.base q.2
+
+theorem getPart_mem {s : SState} {c : Nat} {p : Partial} (h : getPart s c = some p) : (c, p) ∈ s.parts := by
+  simp only [getPart, Option.map_eq_some_iff] at h
+  obtain ⟨q, hq, rfl⟩ := h
+  have hm := List.mem_of_find?_eq_some hq
+  have hk := List.find?_some hq
+  simp only [beq_iff_eq] at hk
+  cases q; simp_all
+
+theorem mem_setPart {s : SState} {c : Nat} {p : Partial} {q : Nat × Partial} (h : q ∈ (setPart s c p).parts) :
+    q = (c, p) ∨ q ∈ s.parts := by
+  simp only [setPart, List.mem_cons, List.mem_filter] at h
+  rcases h with h | h
+  · exact Or.inl h
+  · exact Or.inr h.1
+
+theorem sinv_init (st nt : Nat) : SInv (sinit st nt) :=
+  ⟨inv_init st nt, by intro q hq; simp [sinit] at hq⟩
+
+/-- with the version taken from the SAME statement as the content, every step keeps the invariant and the fold -/
+theorem sinv_step {s : SState} {c0 : Content} (h : SInv s) (hf : Folded c0 s.base) (op : SOp) :
+    SInv (sstep .sameStatement s op).1 ∧ Folded c0 (sstep .sameStatement s op).1.base := by
+  cases op with
+  | op o =>
+    obtain ⟨h1, hf1⟩ := inv_step h.inv hf o
+    refine ⟨⟨h1, ?_⟩, hf1⟩
+    intro q hq
+    obtain ⟨hle, hfr⟩ := h.parts q hq
+    obtain ⟨m1, m2⟩ := step_db s.base o
+    refine ⟨Nat.le_trans hle m1, ?_⟩
+    intro e
+    have e1 : (step s.base o).1.db.version = s.base.db.version := by
+      have : q.2.version = (step s.base o).1.db.version := e
+      omega
+    have e2 : q.2.version = s.base.db.version := by
+      have : q.2.version = (step s.base o).1.db.version := e
+      omega
+    show q.2.content = (step s.base o).1.db.content
+    rw [m2 e1]; exact hfr e2
+  | readRow c =>
+    refine ⟨⟨h.inv, ?_⟩, hf⟩
+    intro q hq
+    rcases mem_setPart hq with rfl | hq
+    · exact ⟨Nat.le_refl _, fun _ => rfl⟩
+    · exact h.parts q hq
+  | readTasks c =>
+    simp only [sstep]
+    split
+    · exact ⟨h, hf⟩
+    · rename_i p hp
+      refine ⟨⟨h.inv, ?_⟩, hf⟩
+      intro q hq
+      rcases mem_setPart hq with rfl | hq
+      · exact h.parts (c, p) (getPart_mem hp)
+      · exact h.parts q hq
+  | readVer c =>
+    simp only [sstep]
+    split
+    · exact ⟨h, hf⟩
+    · exact ⟨h, hf⟩
+  | readEnd c =>
+    simp only [sstep]
+    split
+    · exact ⟨h, hf⟩
+    · rename_i p hp
+      obtain ⟨ple, pfr⟩ := h.parts (c, p) (getPart_mem hp)
+      refine ⟨⟨?_, ?_⟩, hf⟩
+      · constructor <;> intro q hq <;> rcases mem_setObj hq with rfl | ⟨hm, _⟩
+        · exact ple
+        · exact h.inv.le q hm
+        · exact pfr
+        · exact h.inv.fresh q hm
+        · rfl
+        · exact h.inv.cur q hm
+      · intro q hq
+        simp only [List.mem_filter] at hq
+        exact h.parts q hq.1
+
+theorem sinv_run {s : SState} {c0 : Content} (h : SInv s) (hf : Folded c0 s.base) (ops : List SOp) :
+    SInv (srun .sameStatement s ops) ∧ Folded c0 (srun .sameStatement s ops).base := by
+  induction ops generalizing s with
+  | nil => exact ⟨h, hf⟩
+  | cons o os ih =>
+    obtain ⟨h1, hf1⟩ := sinv_step h hf o
+    exact ih h1 hf1
+
 end Stab.CasRow
